@@ -338,6 +338,12 @@ func (x *Exec) validatorVerdict(val IfaceV, tag StrV) Val {
 		if v.F != nil {
 			gv, have = *v.F, true
 		}
+	case PtrV:
+		if val.T != nil {
+			if rv, ok := x.nativeValue(val.T, v, 0); ok {
+				gv, have = rv.Interface(), true
+			}
+		}
 	}
 	if have {
 		x.stubsUsed["validator.Var (real go-playground/validator, natively, on concrete values)"] = true
@@ -450,7 +456,24 @@ func (x *Exec) nativeValue(t types.Type, v Val, depth int) (reflect.Value, bool)
 			return reflect.Value{}, false
 		}
 		if _, isStruct := u.Elem().Underlying().(*types.Struct); !isStruct {
-			return reflect.Value{}, false
+			// pointer to a scalar: a fresh native variable holding the pointee (nil stays nil)
+			if _, isBasic := u.Elem().Underlying().(*types.Basic); !isBasic {
+				return reflect.Value{}, false
+			}
+			zv, ok := x.nativeValue(u.Elem(), x.zero(u.Elem()), depth+1)
+			if !ok {
+				return reflect.Value{}, false
+			}
+			if p.C == nil {
+				return reflect.Zero(reflect.PointerTo(zv.Type())), true
+			}
+			ev, ok := x.nativeValue(u.Elem(), p.C.V, depth+1)
+			if !ok {
+				return reflect.Value{}, false
+			}
+			pv := reflect.New(ev.Type())
+			pv.Elem().Set(ev)
+			return pv, true
 		}
 		if p.C == nil {
 			// typed nil pointer: the element type is still needed
